@@ -40,8 +40,15 @@ class Shim:
         self.kernel = object()     # what blocked flock() callers park on
         self.fault = None          # site to fail once: open|lock|unlock|close
         self.fired = 0
+        self.plan = {}             # site -> set of occurrence indexes (1-based) that fail
+        self.seen = {}
 
     def _maybe_fault(self, site):
+        self.seen[site] = self.seen.get(site, 0) + 1
+        if self.seen[site] in self.plan.get(site, ()):
+            self.fired += 1
+            self.ctl.log('Fault', site=site, nth=self.seen[site])
+            return True
         if self.fault == site:
             self.fault = None
             self.fired += 1
@@ -113,6 +120,8 @@ def execute(sc):
                             opcode_files=[FILES['filelock']] if sc.get('opcodes') else (),
                             max_steps=sc.get('max_steps', 40000)))
     shim = Shim(ctl)
+    for f in sc.get('faults', []):
+        shim.plan.setdefault(f['site'], set()).add(f['nth'])
     patch_filelock_module(F, shim)
     d = tempfile.mkdtemp(prefix='vlock-')
     path = os.path.join(d, 'the.lock')
